@@ -51,6 +51,10 @@ CLAIMED['C09'] = dict(
    text='Machine-checked theorems on a heap model of function objects, registries and validator objects (attach / attach_has / _ensure_wrapped / update_wrapper / chain / foreign decorators): any sequence of deal decorators on a function yields one registry holding exactly the applied contracts in application order; grouping with chain or splitting the stack anywhere changes nothing; a functools.wraps-style foreign layer is never mistaken for a deal wrapper, so the next decorator opens a new registry over it and it stays in the call chain. The model is hand-written; the source of the modelled functions is pinned (a change fails the translation) and random compositions (stacks, chains, shared contract objects, wraps-style and plain foreign decorators) are executed on model and real deal with the generated wrappers, plus an independent monitor.',
    design_ref='DESIGN.md 4.9', note=GENERIC_NOTE + ' The definition-phase functions are modelled by hand (pinned source + correspondence), not regenerated.',
    technique='Coq proof over a hand-written heap model (source-pinned) + differential correspondence + monitor')
+CLAIMED['C14'] = dict(
+   text='Machine-checked theorems on the heap model of function objects and registries: for a function decorated by any sequence of deal decorators (stacked or chained) get_contracts yields exactly one record per applied validator, kinds in the documented order and each kind in application order, plus the patcher in force; the records are the registry entries the wrapper itself runs; unwrap returns the original; a registry reachable several times along the __wrapped__ chain is reported once. Model hand-written with pinned source; random compositions with introspection queries are executed on model and real deal; record.validate vs the runtime verdict and init_all idempotence are probed on the implementation.',
+   design_ref='DESIGN.md 4.14', note=GENERIC_NOTE + ' The introspection functions are modelled by hand (pinned source + correspondence); inheritance through Inherit is covered under C11.',
+   technique='Coq proof over a hand-written heap model (source-pinned) + differential correspondence + monitor')
 UNCLAIMED_REASON = 'not claimed yet: the Coq model and check for this property are still under construction in this round (no technique switch intended)'
 checks, na = [], []
 for p in props:
